@@ -8,12 +8,14 @@
   single empty lines whose lines are plain words joined by single spaces — `plainWord`: non-empty, no whitespace, first
   character not a digit and none of # > ` ~ - _ * + = < [ | :, no character among \ ` < & ~ [ * _ — which is the
   property's quantifier "prose words that cannot be mistaken for block markers at the start of a line" (any word may
-  land at a line start after re-breaking).  Not covered: paragraphs inside containers (prefix budgets), hard breaks,
+  land at a line start after re-breaking), at top level and inside any number of nested block quotes
+  (Proofs/ReflowQuote.lean).  Not covered: list items as containers, bare `>` markers and lazy lines, hard breaks,
   inline markup.
 -/
 import Mistletoe.Proofs.Reflow
+import Mistletoe.Proofs.ReflowQuote
 namespace Mistletoe.Props.C10R
-open Mistletoe Mistletoe.Py Mistletoe.Wrap Mistletoe.Markdown Mistletoe.InertInline Mistletoe.Reflow
+open Mistletoe Mistletoe.Py Mistletoe.Wrap Mistletoe.Markdown Mistletoe.InertInline Mistletoe.MdRound Mistletoe.Reflow Mistletoe.ReflowQuote
 open Mistletoe.Props.C10 (joinWords)
 
 /-- **Reflow of plain-word prose for the token lists of the working tree** (`Config.markdown`): with
@@ -62,6 +64,54 @@ theorem C10_prose_reflow_idempotent_partial (cfg : Document.Cfg) (hpar : .paragr
       ∃ d', Document.parse cfg (gas + (2 * rest.length + cfg.block.types.length + 4)) (render o d) = .ok d' ∧
         renderRes o d' = renderRes o d ∧ render o d' = render o d :=
   Mistletoe.Reflow.C10_prose_reflow_idempotent_partial cfg hpar hbl ht hc p rest hp hrest o L hL ho gas
+
+/-- **Reflow of plain-word prose inside `k` nested block quotes** ("> " before every line), for the token lists of the
+    working tree: with `max_line_length = L ≥ 1` the renderer re-fills every paragraph with the budget `max (L − 2k) 1`
+    (each quote level takes two columns, clamped at 1: `C10_budget`), the output is again `k` quotes around plain-word
+    paragraphs with the same words in the same order, and **every output line is the container prefix followed by a body
+    that exceeds the budget - or makes the whole line longer than `L` - only if it is a single word without whitespace**
+    (no breakable space after the container prefix). -/
+theorem C10_quoted_reflow_partial (cfg : Document.Cfg) (hcfg : Config.markdown = some cfg)
+    (p : List (List Str)) (rest : List (List (List Str))) (hp : plainPara p = true) (hrest : ∀ q ∈ rest, plainPara q = true)
+    (k : Nat) (o : Opts) (L : Nat) (hL : 1 ≤ L) (ho : o.maxLineLength = some (L : Int)) (gas : Nat) :
+    ∃ d, Document.parse cfg (gas + (2 * rest.length + 15) + k * 8) (textOfQ k p rest) = .ok d ∧
+      d.kids = qBlocks 1 (proseBlocks 1 (paraLines p) (rest.map paraLines)) k ∧
+      renderRes o d = .ok (textOfQ k (reflowG (qBudget L k) p) (rest.map (reflowG (qBudget L k)))) ∧
+      render o d = textOfQ k (reflowG (qBudget L k) p) (rest.map (reflowG (qBudget L k))) ∧
+      (∀ q ∈ p :: rest, plainPara (reflowG (qBudget L k) q) = true ∧ (reflowG (qBudget L k) q).flatten = q.flatten ∧
+        fill (qBudget L k) q.flatten = (reflowG (qBudget L k) q).map joinWords) ∧
+      (∀ l ∈ linesQ k (reflowG (qBudget L k) p) (rest.map (reflowG (qBudget L k))),
+        ∃ body, l = qPre k ++ body ++ ['\n'] ∧ (body = [] ∨ ∃ q ∈ p :: rest, body ∈ fill (qBudget L k) q.flatten) ∧
+          ((qBudget L k < body.length ∨ L < (qPre k ++ body).length) → ∀ c ∈ body, pyIsSpace c = false)) ∧
+      (∀ q ∈ p :: rest, ∀ body ∈ fill (qBudget L k) q.flatten,
+        (qBudget L k < body.length ∨ L < (qPre k ++ body).length) → body ∈ q.flatten ∧ ∀ c ∈ body, pyIsSpace c = false) :=
+  Mistletoe.ReflowQuote.C10_quoted_reflow_partial cfg hcfg p rest hp hrest k o L hL ho gas
+
+/-- **Same meaning inside quotes**: the rendered text parses to `k` quotes around the re-filled paragraphs, and its HTML
+    equals the original's once every "\n" is replaced by a space. -/
+theorem C10_quoted_reflow_meaning_partial (cfg : Document.Cfg) (hcfg : Config.markdown = some cfg)
+    (p : List (List Str)) (rest : List (List (List Str))) (hp : plainPara p = true) (hrest : ∀ q ∈ rest, plainPara q = true)
+    (k : Nat) (o : Opts) (L : Nat) (hL : 1 ≤ L) (ho : o.maxLineLength = some (L : Int)) (hopts : Html.Opts) (gas : Nat) :
+    ∃ d d', Document.parse cfg (gas + (2 * rest.length + 15) + k * 8) (textOfQ k p rest) = .ok d ∧
+      Document.parse cfg (gas + (2 * rest.length + 15) + k * 8) (render o d) = .ok d' ∧
+      d'.kids = qBlocks 1 (proseBlocks 1 (paraLines (reflowG (qBudget L k) p))
+        ((rest.map (reflowG (qBudget L k))).map paraLines)) k ∧
+      (∀ q ∈ p :: rest, plainPara (reflowG (qBudget L k) q) = true ∧ (reflowG (qBudget L k) q).flatten = q.flatten) ∧
+      ∃ h h', Config.renderHtml hopts (gas + (2 * rest.length + 14) + k * 6) (textOfQ k p rest) = some h ∧
+        Config.renderHtml hopts (gas + (2 * rest.length + 14) + k * 6) (render o d) = some h' ∧
+        nlToSp h' = nlToSp h ∧
+        nlToSp h = nlToSp (qHtml k (htmlParas hopts.dq hopts.sq ['\n'] (joinWords p.flatten)
+          (rest.map (fun q => joinWords q.flatten)))) :=
+  Mistletoe.ReflowQuote.C10_quoted_reflow_meaning_partial cfg hcfg p rest hp hrest k o L hL ho hopts gas
+
+/-- **Idempotent inside quotes**, for every `L ≥ 1` and every depth `k`, including where the budget clamps (`L ≤ 2k`). -/
+theorem C10_quoted_reflow_idempotent_partial (cfg : Document.Cfg) (hcfg : Config.markdown = some cfg)
+    (p : List (List Str)) (rest : List (List (List Str))) (hp : plainPara p = true) (hrest : ∀ q ∈ rest, plainPara q = true)
+    (k : Nat) (o : Opts) (L : Nat) (hL : 1 ≤ L) (ho : o.maxLineLength = some (L : Int)) (gas : Nat) :
+    ∃ d, Document.parse cfg (gas + (2 * rest.length + 15) + k * 8) (textOfQ k p rest) = .ok d ∧
+      ∃ d', Document.parse cfg (gas + (2 * rest.length + 15) + k * 8) (render o d) = .ok d' ∧
+        renderRes o d' = renderRes o d ∧ render o d' = render o d :=
+  Mistletoe.ReflowQuote.C10_quoted_reflow_idempotent_partial cfg hcfg p rest hp hrest k o L hL ho gas
 
 /-- non-vacuity: a two-paragraph document of plain words satisfies the hypothesis -/
 example : plainPara [["an".toList, "extraordinarily".toList, "long".toList], ["word".toList, "here".toList]] = true := by
